@@ -29,6 +29,7 @@ import ast
 import itertools
 
 from ..cfg import CFG, branch_facts
+from ..normalize import inline_helpers
 from ..core import (AnalysisError, call_name, enclosing_stmt, find_calls,
                     kwarg, last_attr, names_in, short, txt, walk)
 
@@ -1078,8 +1079,70 @@ def _is_range(func, e, depth=0):
 # ----------------------------------------------------------------------
 # R16.5
 
+class _Expand(ast.NodeTransformer):
+    def __init__(self, func, depth):
+        self.func, self.depth = func, depth
+        self.params = [a.arg for a in func.args.args]
+
+    def visit_Name(self, node):
+        if isinstance(node.ctx, ast.Load) and node.id not in self.params \
+                and self.depth > 0:
+            d = single_def(self.func, node.id)
+            if d is not None and node.id not in names_in(d.value):
+                import copy as _copy
+                return _Expand(self.func, self.depth - 1).visit(
+                    _copy.deepcopy(d.value))
+        return node
+
+
+def expand(func, e):
+    """text of e with single-assignment locals (not parameters, not
+    self-referential bindings) replaced by their values"""
+    import copy as _copy
+    if isinstance(e, str):
+        e = ast.parse(e, mode="eval").body
+    return txt(ast.fix_missing_locations(
+        _Expand(func, 5).visit(_copy.deepcopy(e))))
+
+
+def _num(e, env):
+    """evaluate a numeric guard"""
+    if isinstance(e, ast.Constant) and isinstance(e.value, (int, float)):
+        return e.value
+    if isinstance(e, ast.Name) and e.id in env:
+        return env[e.id]
+    if isinstance(e, ast.UnaryOp) and isinstance(e.op, ast.USub):
+        return -_num(e.operand, env)
+    if isinstance(e, ast.UnaryOp) and isinstance(e.op, ast.Not):
+        return not _num(e.operand, env)
+    if isinstance(e, ast.BoolOp):
+        vals = [_num(v, env) for v in e.values]
+        return all(vals) if isinstance(e.op, ast.And) else any(vals)
+    if isinstance(e, ast.Call) and call_name(e) in ("int", "float") and len(
+            e.args) == 1:
+        return _num(e.args[0], env)
+    if isinstance(e, ast.Compare):
+        left = _num(e.left, env)
+        for op, c in zip(e.ops, e.comparators):
+            right = _num(c, env)
+            r = {ast.Lt: left < right, ast.LtE: left <= right,
+                 ast.Gt: left > right, ast.GtE: left >= right,
+                 ast.Eq: left == right, ast.NotEq: left != right}.get(
+                type(op))
+            if r is None:
+                raise AnalysisError("guard comparison not understood")
+            if not r:
+                return False
+            left = right
+        return True
+    raise AnalysisError(f"guard `{short(e, 40)}` not understood")
+
+
 def r165(ctx, repo):
-    f = repo.func(CORE, "RTDCBase.get_downsampled_scatter")
+    # extracted private helpers are read as part of the method; the scale
+    # helper is an anchor and stays a call
+    f = inline_helpers(repo, CORE, repo.func(
+        CORE, "RTDCBase.get_downsampled_scatter"), keep=("_apply_scale",))
     calls = find_calls(f, attr="downsample_grid")
     if len(calls) != 1:
         raise AnalysisError("get_downsampled_scatter: downsample_grid call "
@@ -1091,7 +1154,7 @@ def r165(ctx, repo):
         raise AnalysisError("get_downsampled_scatter: result unpacking")
     idx = txt(st.targets[0].elts[2])
     ri = kwarg(c, "ret_idx", 4)
-    ok = ri is not None and txt(ri) == "True"
+    ok = ri is not None and expand(f, ri) == "True"
     ctx.ob("R16.5", ok, "the mask is requested (ret_idx=True) and taken "
            "from the third result" if ok else "ret_idx=True lost: the third "
            "result is not the mask", node=c, label="scatter asks mask")
@@ -1118,7 +1181,7 @@ def r165(ctx, repo):
             v = d.value
         if isinstance(v, ast.Subscript) and isinstance(
                 v.value, ast.Subscript) and txt(v.value.value) == "self":
-            return raw, txt(v.value.slice), txt(v.slice)
+            return raw, expand(f, v.value.slice), expand(f, v.slice)
         raise AnalysisError("get_downsampled_scatter: data selection "
                             f"`{short(v, 40)}` not understood")
     x = origin(a0.id)
@@ -1137,62 +1200,112 @@ def r165(ctx, repo):
            label="scatter selection is filter", nontrivial=False)
     sm = kwarg(c, "samples", 2)
     rm = kwarg(c, "remove_invalid", 3)
-    ok = sm is not None and txt(sm) == "downsample" and rm is not None \
-        and txt(rm) == "remove_invalid"
+    ok = sm is not None and expand(f, sm) in (
+        "downsample", "int(downsample)") and rm is not None \
+        and expand(f, rm) == "remove_invalid"
     ctx.ob("R16.5", ok, "request size and invalid-handling are forwarded"
            if ok else "samples / remove_invalid are not forwarded unchanged",
            node=c, label="scatter forwards request")
     # returns
     rets = returns_of(f)
-    if len(rets) != 2:
-        raise AnalysisError("get_downsampled_scatter: expected two returns")
+    if not rets:
+        raise AnalysisError("get_downsampled_scatter: no return")
+    want_x = expand(f, f"{x[0]}[{idx}]")
+    want_y = expand(f, f"{y[0]}[{idx}]")
+    n3 = 0
     for r in rets:
-        el = r.value.elts if isinstance(r.value, ast.Tuple) else []
-        ok = len(el) >= 2 and txt(el[0]) == f"{x[0]}[{idx}]" and txt(
-            el[1]) == f"{y[0]}[{idx}]"
+        rv = r.value
+        if isinstance(rv, ast.Name):
+            d = single_def(f, rv.id)
+            rv = d.value if d is not None else rv
+        if not (isinstance(rv, ast.Tuple) and len(rv.elts) in (2, 3)):
+            raise AnalysisError("get_downsampled_scatter: return value "
+                                f"`{short(r, 40)}` not understood")
+        el = rv.elts
+        ok = expand(f, el[0]) == want_x and expand(f, el[1]) == want_y
         ctx.ob("R16.5", ok,
                "returns the unscaled data under the sampler's mask" if ok
-               else f"`{short(r, 50)}` does not return ({x[0]}[{idx}], "
+               else f"`{short(r, 50)}` = ({expand(f, el[0])}, "
+               f"{expand(f, el[1])}) does not return ({x[0]}[{idx}], "
                f"{y[0]}[{idx}])", node=r,
                label=f"scatter return {len(el)}")
         if len(el) == 3:
-            mk = txt(el[2])
+            n3 += 1
+            if not isinstance(el[2], ast.Name):
+                raise AnalysisError("get_downsampled_scatter: mask "
+                                    "expression not understood")
+            mk = el[2].id
+            while True:
+                d = single_def(f, mk)
+                if d is not None and isinstance(d.value, ast.Name):
+                    mk = d.value.id
+                    continue
+                break
             z = [s for s in walk(f) if isinstance(s, ast.Assign)
                  and txt(s.targets[0]) == mk and isinstance(
-                     s.value, ast.Call) and (call_name(s.value) or ""
-                                             ).endswith("zeros")
-                 and txt(s.value.args[0]) == "len(self)"
-                 and txt(kwarg(s.value, "dtype", 1)) == "bool"]
-            wr = [s for s in walk(f) if isinstance(s, ast.Assign)
-                  and isinstance(s.targets[0], ast.Subscript)
-                  and txt(s.targets[0].value) == mk]
+                     s.value, ast.Call)]
+            wr = [s for s in walk(f) if isinstance(s, (ast.Assign,
+                                                       ast.AugAssign))
+                  and isinstance((s.targets[0] if isinstance(
+                      s, ast.Assign) else s.target), ast.Subscript)
+                  and txt((s.targets[0] if isinstance(s, ast.Assign)
+                           else s.target).value) == mk]
+            if len(z) != 1 or len(wr) != 1 or not isinstance(
+                    wr[0], ast.Assign):
+                raise AnalysisError("get_downsampled_scatter: construction "
+                                    f"of the mask `{mk}` not understood")
+            zc = z[0].value
+            leaf = (call_name(zc) or "").split(".")[-1]
+            sizes = ("len(self)", f"len({sel})", f"{sel}.size",
+                     f"{sel}.shape[0]", f"{sel}.shape")
+            if leaf == "zeros" and zc.args:
+                if expand(f, zc.args[0]) not in sizes:
+                    raise AnalysisError(
+                        "get_downsampled_scatter: size of the mask "
+                        f"`{short(zc, 40)}` not understood")
+                dt = kwarg(zc, "dtype", 1)
+                is_bool = dt is not None and txt(dt) in ("bool", "np.bool_")
+            elif leaf == "zeros_like" and zc.args and expand(
+                    f, zc.args[0]) == sel:
+                dt = kwarg(zc, "dtype", 1)
+                is_bool = dt is None or txt(dt) in ("bool", "np.bool_")
+            else:
+                raise AnalysisError("get_downsampled_scatter: allocation "
+                                    f"of the mask `{short(zc, 40)}` not "
+                                    "understood")
+            t = expand(f, wr[0].targets[0].slice)
             ok = False
-            why = "mask construction not recognised"
-            if len(z) == 1 and len(wr) == 1:
-                sl = wr[0].targets[0].slice
-                if isinstance(sl, ast.Name):
-                    d = single_def(f, sl.id)
-                    sl = d.value if d is not None else sl
-                t = txt(sl)
-                if txt(wr[0].value) != idx:
-                    why = (f"`{short(wr[0], 40)}` does not write the "
-                           "sampler's mask")
-                elif t in (f"np.where({sel})[0]", sel,
-                           f"np.nonzero({sel})[0]",
-                           f"np.flatnonzero({sel})"):
-                    ok = True
-                else:
-                    why = (f"the mask is written at `{t}`, the data were "
-                           f"selected with `{sel}`")
+            if not is_bool:
+                why = "the dataset-level mask is not a boolean array"
+            elif expand(f, wr[0].value) != idx:
+                why = (f"`{short(wr[0], 40)}` does not write the "
+                       "sampler's mask")
+            elif t in (f"np.where({sel})[0]", sel,
+                       f"np.nonzero({sel})[0]",
+                       f"np.flatnonzero({sel})"):
+                ok = True
+                why = ""
+            else:
+                why = (f"the mask is written at `{t}`, the data were "
+                       f"selected with `{sel}`")
             ctx.ob("R16.5", ok,
                    f"the dataset-level mask is all-False of len(self) with "
                    f"the sampler's mask written at the positions of `{sel}`"
-                   if ok else why, node=wr[0] if wr else r,
+                   if ok else why, node=wr[0],
                    label="scatter mask write-back")
-    # negative request rejected, request is an int
-    neg = [n for n in walk(f) if isinstance(n, ast.If) and isinstance(
-        n.test, ast.Compare) and txt(n.test) in ("downsample < 0",)
-        and any(isinstance(s, ast.Raise) for s in n.body)]
+    if not n3:
+        raise AnalysisError("get_downsampled_scatter: no return carries the "
+                            "mask")
+    # negative request rejected (evaluated: true for -1, false for 0 and 1)
+    neg = []
+    for n in walk(f):
+        if isinstance(n, ast.If) and "downsample" in names_in(n.test) \
+                and names_in(n.test) <= {"downsample", "int", "float"} \
+                and any(isinstance(s, ast.Raise) for s in n.body):
+            if _num(n.test, {"downsample": -1}) and not _num(
+                    n.test, {"downsample": 0}) and not _num(
+                    n.test, {"downsample": 1}):
+                neg.append(n)
     ctx.ob("R16.5", bool(neg), "negative requests are rejected" if neg else
            "negative requests are no longer rejected (np.uint32 wraps)",
            node=neg[0] if neg else f, label="scatter rejects negative",
